@@ -441,13 +441,24 @@ class Run:
                 for k, v in sa.items():
                     T.ALIAS_SLICE.setdefault(k, []).extend(v)
                 got2 = None
+                rebuilt = True
                 try:
                     exp2 = spec_fn()
                     if impl_fn is not None:
                         got2 = impl_fn()
+                except Exception as e_:
+                    from .execu import Inconclusive as _Inc
+                    if not isinstance(e_, _Inc):
+                        raise
+                    # the re-execution could not follow the recorded path under the installed lemmas: keep the terms of the last
+                    # consistent round and let the bounded query decide
+                    STATS['alias_rebuild_abandoned'] = STATS.get('alias_rebuild_abandoned', 0) + 1
+                    rebuilt = False
                 finally:
                     T.ALIAS_NODE.clear()
                     T.ALIAS_SLICE.clear()
+                if not rebuilt:
+                    break
                 pairs2 = mkpairs(exp2, got2)
                 STATS['alias_rebuilds'] = STATS.get('alias_rebuilds', 0) + 1
                 if os.environ.get('VERIF_DEBUG'):
